@@ -369,7 +369,19 @@ def _execute(src: str, n: int, tape: dict, opts: dict):
 
     g = {"__name__": "__reduino_script__", "__N": n, "__binop": binop, "__boolopnd": boolopnd, "__strarg": strarg, "__obs": obs}
 
+    def live_data():
+        tot = 0
+        for name, v in g.items():
+            if name.startswith("__"):
+                continue
+            if isinstance(v, list):
+                tot += len(v) + sum(len(x) for x in v if isinstance(x, str))
+            elif isinstance(v, str):
+                tot += len(v)
+        return tot
+
     def mark(k):
+        emit("LIVE", live_data())
         if T.jitter:
             clock[0] += float(T.jitter.pop(0))
         emit("MARK", f"loop {k}")
@@ -385,6 +397,7 @@ def _execute(src: str, n: int, tape: dict, opts: dict):
         exec(code, g)
     finally:
         os.dup2(out_fd, 1)
+    emit("LIVE", live_data())
     emit("MARK", "end")
     # type observations for C02: final python types of user globals
     for k, v in g.items():
